@@ -18,8 +18,11 @@ and `pow5 n` is math/big's repeated squaring with a 576-bit accumulator and a
 answer, not necessarily the nearest 512-bit number.  This file follows the
 library; it does not "fix" it.
 
-`.unmodelled`: exponents or digit counts above `parseBound` (math/big reports
-"exponent overflow" only beyond the int32 range; the harness does not go there).
+Errors as in the library: an exponent that does not fit int64 (`strconv.ParseInt` in
+`scanExponent`, before the zero-mantissa shortcut), and "exponent overflow" when the binary
+exponent leaves the int32 range (before any power of 5 is computed).
+`.unmodelled`: in-range exponents or digit counts above `parseBound` (math/big computes
+them; the model does not try).
 -/
 import CtyModel.Num
 namespace CtyModel
@@ -112,7 +115,15 @@ def parse512 (s : String) : Res Num :=
     match scanLit s with
     | none => .err "a number is required"
     | some l =>
-      if l.mant = 0 then .ok (.fin l.neg 0 0 512)
+      -- scanExponent: strconv.ParseInt(digits, 10, 64) — an exponent outside int64 is an
+      -- error whatever the mantissa is
+      if l.exp < -9223372036854775808 ∨ l.exp > 9223372036854775807 then .err "a number is required"
+      -- Float.scan: a zero mantissa returns ±0 before the exponent is looked at again
+      else if l.mant = 0 then .ok (.fin l.neg 0 0 512)
+      -- "exponent overflow": the binary exponent (mantissa bits + radix-point shift + exponent)
+      -- must fit big.MinExp..big.MaxExp (int32); checked before any power of 5 is computed
+      else if (bitlen l.mant : Int) + l.exp - l.frac < -2147483648 ∨
+          (bitlen l.mant : Int) + l.exp - l.frac > 2147483647 then .err "a number is required"
       else if l.frac > parseBound ∨ l.exp.natAbs > parseBound then .unmodelled
       else
         let d : Int := l.frac
